@@ -250,6 +250,11 @@ class Problem(  # type: ignore[misc]
 
     def clone(self):
         new_p = Problem(self._name, self._env)
+        Problem._clone_to(self, new_p)
+        return new_p
+
+    def _clone_to(self, new_p: "Problem"):
+        """Copies everything a `Problem` holds into the given (empty) new `Problem`."""
         UserTypesSetMixin._clone_to(self, new_p)
         ObjectsSetMixin._clone_to(self, new_p)
         FluentsSetMixin._clone_to(self, new_p)
@@ -274,7 +279,6 @@ class Problem(  # type: ignore[misc]
 
         # last as it requires actions to be cloned already
         MetricsMixin._clone_to(self, new_p, new_actions=new_p)
-        return new_p
 
     def has_name(self, name: str) -> bool:
         """
